@@ -92,7 +92,7 @@ Print Assumptions C12_ranges_scalar.
    in_fragment u l (Regex/FragParser.v), a left-to-right scan of the units of l in the mode u:
      a backslash is followed by a unit x, which is skipped, where with u, x is not k, p or P (named references, property
        escapes), and if x is one of the digits 1-9, the decimal number that starts at x is below 2^63;
-     every other unit is any unit except an opening bracket `[` (no classes);
+     every other unit is any unit except an opening bracket `[` (classes: see C12_recogniser_decides_grammar below);
      every `(?<` is followed by `=` or `!` (look-behind; named groups are outside the fragment);
      where a `{` starts a syntactically complete `{n}` `{n,}` `{n,m}`, n and m are below 2^63.
    Pattern u (Regex/Grammar.v): the ES2022 grammar (22.2.1 + Annex B behind the u switch) and early errors of the fragment
@@ -120,10 +120,19 @@ Theorem C12_fragment_reject : forall st s u, in_fragment u (visible_units s u) =
 Proof. exact fragment_reject. Qed.
 Print Assumptions C12_fragment_reject.
 
-(* the executable recogniser that is cross-validated against V8 decides the grammar (every input, both modes) *)
+(* the executable recogniser that is cross-validated against V8 decides the grammar (every input, both modes).  Grammar.v
+   also has CharacterClass with ClassRanges, ClassAtom, ClassEscape (b, - with u, c ClassControlLetter without u, class and
+   character escapes), the CharacterValue of every escape and the early errors of ranges (out of order; a class as an endpoint
+   with u) -- so on classes the grammar is stated and decided by the recogniser, and compared with V8, while the agreement of
+   the validator model with it (C12_fragment_equiv) is proved for inputs without classes only.  in_grammar (the inputs on which
+   Grammar.v is the whole ES2022 grammar: no named groups, no property escapes, no \k with u) contains in_fragment. *)
 Theorem C12_recogniser_decides_grammar : forall u l, recognises u l = true <-> Pattern u l.
 Proof. exact recognises_iff_Pattern. Qed.
 Print Assumptions C12_recogniser_decides_grammar.
+
+Theorem C12_in_fragment_in_grammar : forall u l, in_fragment u l = true -> in_grammar u l = true.
+Proof. exact in_fragment_in_grammar. Qed.
+Print Assumptions C12_in_fragment_in_grammar.
 
 (* non-vacuity.  ex_valid = the 35 units of  ^ \b ( a | \d STAR ) PLUS ? (?<= \. ) (?! \w ) (?: e | ) ? \B $  and
    ex_braced = a{2}b{3,}?c{4,15}(?:d|e){0} : in the fragment, Patterns, accepted, in both modes;
@@ -140,7 +149,10 @@ Print Assumptions C12_recogniser_decides_grammar.
    ex_escapes_invalid = \c**  \x41**  (\u0041  \0{2,1} : neither Patterns nor accepted, both modes;
    ex_backrefs = (a)\1  \1(a)  ((a))\2  (?=(a))\1  (a)(b)(c)(d)(e)(f)(g)(h)(i)(j)\10 : Patterns, accepted, both modes;
    ex_backrefs_annexb = \1  (a)\2  \8  \18  \00  \07  \377  \400  \08  (?:a)\1  \(\1  (a)\18 : Patterns and accepted without u only;
-   \1**  (\1  \1{2,1} : neither Patterns nor accepted, both modes *)
+   \1**  (\1  \1{2,1} : neither Patterns nor accepted, both modes;
+   classes (grammar and recogniser only): ex_classes = [a-z] [^a] [] [^] [a-] [-a] [--a] [\b-a] [\-] [\ca-\cb] [\0-9] [a-b-c] [\n-\r] [(]
+   ([(])\1 [\]] [[] are Patterns in both modes; ex_classes_annexb = [\d-a] [a-\d] [\c1] [\c_-a] [\c] [\1] [\8] [\x4] [b-\u{61}] [a]] [\B] [\k]
+   [\00-\07] [\_] without u only; [z-a] [a--] [a-\b] [\r-\n] [a-\-] [a [\] in neither mode *)
 Example C12_fragment_example_valid : forall st u,
   in_fragment u ex_valid = true /\ Pattern u ex_valid /\ verdict_of (validate_pattern st ex_valid u) = VOk.
 Proof. intros st u. split; [exact (ex_valid_ok u)|split; [exact (ex_valid_pattern u) | exact (ex_valid_accepted st u)]]. Qed.
@@ -181,3 +193,12 @@ Proof. exact ex_backrefs_annexb_modes. Qed.
 Example C12_fragment_example_backrefs_invalid : forall st u l, In l [[92;49;42;42]; [40;92;49]; [92;49;123;50;44;49;125]] ->
   ~ Pattern u (visible_units l u) /\ verdict_of (validate_pattern st l u) <> VOk.
 Proof. exact ex_backrefs_invalid. Qed.
+Example C12_grammar_example_classes : forall u l, In l ex_classes -> in_grammar u l = true /\ Pattern u l.
+Proof. exact ex_classes_patterns. Qed.
+Example C12_grammar_example_classes_annexb : forall l, In l ex_classes_annexb ->
+  (in_grammar false l = true /\ Pattern false l) /\ (in_grammar true l = true /\ ~ Pattern true l).
+Proof. exact ex_classes_annexb_modes. Qed.
+Example C12_grammar_example_classes_invalid : forall u l,
+  In l [[91;122;45;97;93]; [91;97;45;45;93]; [91;97;45;92;98;93]; [91;92;114;45;92;110;93]; [91;97;45;92;45;93]; [91;97]; [91;92;93]] ->
+  in_grammar u l = true /\ ~ Pattern u l.
+Proof. exact ex_classes_invalid. Qed.
